@@ -93,6 +93,94 @@ def gen_policy():
     out += 'Definition opt_policy_dirs_default : list str := %s.\n\n' % coq_list(
         [coq_str(x) for x in defaults['policy_dirs']])
 
+    # ---- frame facts (C12): every statement that writes through a reference the function received
+    sites = frame_sites(mod)
+    out += '(* statements of policy.py that mutate an object reached from a parameter (not self) *)\n'
+    out += 'Definition frame_sites : list str := %s.\n' % coq_list([coq_str(x) for x in sites])
+    reg = ast.unparse(find_func(enf.body, 'register_default'))
+    rd = ast.unparse(find_func(find_class(mod, 'RuleDefault').body, '__init__'))
+    out += '(* the deep copies that keep caller-owned objects out of the enforcer *)\n'
+    out += 'Definition register_copies : bool := %s.\n' % b(
+        'self.registered_rules[default.name] = copy.deepcopy(default)' in reg)
+    out += 'Definition ruledefault_copies_deprecated : bool := %s.\n\n' % b(
+        'self._deprecated_rule = copy.deepcopy(deprecated_rule) or []' in rd)
+
     # ---- decision trees
     out += dtree.gen_trees(mod)
     return out
+
+
+MUTATORS = {'append', 'extend', 'insert', 'remove', 'pop', 'clear', 'update', 'setdefault', 'add',
+            'discard', 'add_check', 'pop_check', 'sort', 'reverse', 'popitem', '__setitem__',
+            '__delitem__', '__setattr__'}
+
+
+def root_name(node):
+    while isinstance(node, (ast.Attribute, ast.Subscript, ast.Call)):
+        node = node.value if not isinstance(node, ast.Call) else node.func
+    return node.id if isinstance(node, ast.Name) else None
+
+
+def frame_sites(mod):
+    sites = []
+
+    def visit_fn(fn, owner):
+        params = {a.arg for a in fn.args.args + fn.args.kwonlyargs + fn.args.posonlyargs}
+        if fn.args.vararg:
+            params.add(fn.args.vararg.arg)
+        if fn.args.kwarg:
+            params.add(fn.args.kwarg.arg)
+        params -= {'self', 'cls', 'mcs'}
+        tainted = set(params)
+        # objects reached from the registered defaults count as received objects too
+        for n in ast.walk(fn):
+            if isinstance(n, ast.For) and isinstance(n.target, ast.Name) and \
+                    'self.registered_rules' in ast.unparse(n.iter):
+                tainted.add(n.target.id)
+            if isinstance(n, ast.Assign) and len(n.targets) == 1 and isinstance(n.targets[0], ast.Name) \
+                    and 'self.registered_rules' in ast.unparse(n.value) and \
+                    not ast.unparse(n.value).startswith('copy.deepcopy('):
+                tainted.add(n.targets[0].id)
+        changed = True
+        while changed:
+            changed = False
+            for n in ast.walk(fn):
+                if isinstance(n, ast.Assign) and len(n.targets) == 1 and isinstance(n.targets[0], ast.Name):
+                    v = n.value
+                    # an alias of (part of) a received object; a call result is a new object
+                    # unless it is a plain accessor such as .get / [] / attribute
+                    alias = isinstance(v, (ast.Attribute, ast.Subscript, ast.Name)) or (
+                        isinstance(v, ast.Call) and isinstance(v.func, ast.Attribute) and
+                        v.func.attr in ('get', 'setdefault'))
+                    if alias and root_name(v) in tainted and n.targets[0].id not in tainted:
+                        tainted.add(n.targets[0].id)
+                        changed = True
+                if isinstance(n, ast.For) and isinstance(n.target, ast.Name) and \
+                        root_name(n.iter) in tainted and n.target.id not in tainted and \
+                        isinstance(n.iter, (ast.Attribute, ast.Subscript, ast.Name, ast.Call)):
+                    tainted.add(n.target.id)
+                    changed = True
+        for n in ast.walk(fn):
+            if isinstance(n, (ast.FunctionDef, ast.Lambda)) and n is not fn:
+                continue
+            targets = []
+            if isinstance(n, ast.Assign):
+                targets = n.targets
+            elif isinstance(n, (ast.AugAssign, ast.AnnAssign)):
+                targets = [n.target]
+            elif isinstance(n, ast.Delete):
+                targets = n.targets
+            for t in targets:
+                if isinstance(t, (ast.Attribute, ast.Subscript)) and root_name(t) in tainted:
+                    sites.append('%s: %s' % (owner, ast.unparse(n).splitlines()[0]))
+            if isinstance(n, ast.Call) and isinstance(n.func, ast.Attribute) and \
+                    n.func.attr in MUTATORS and root_name(n.func.value) in tainted:
+                sites.append('%s: %s' % (owner, ast.unparse(n).splitlines()[0]))
+    for node in mod.body:
+        if isinstance(node, ast.FunctionDef):
+            visit_fn(node, node.name)
+        elif isinstance(node, ast.ClassDef):
+            for m in node.body:
+                if isinstance(m, ast.FunctionDef):
+                    visit_fn(m, node.name + '.' + m.name)
+    return sorted(set(sites))
